@@ -14,6 +14,11 @@ fn rect_path(x: f32, y: f32, w: f32, h: f32) -> Path {
     pb.finish()
 }
 
+fn rng_free_pad(w: i32) -> i32 {
+    // the right edge of the layer's clip: a bit inside the surface when there is room
+    if w > 4 { 1 } else { 0 }
+}
+
 fn first_diff(a: &[u32], b: &[u32], w: i32) -> Option<String> {
     a.iter().zip(b.iter()).position(|(x, y)| x != y).map(|i| format!("({},{}): {} vs {}", i as i32 % w, i as i32 / w, hex(a[i]), hex(b[i])))
 }
@@ -40,11 +45,34 @@ pub fn run(ctx: &Ctx) -> Outcome {
         };
         let src = random_source(&mut rng, w, h, 3);
         let o = DrawOptions { blend_mode: random_mode(&mut rng), alpha: random_alpha(&mut rng), antialias: if rng.chance(0.7) { AntialiasMode::Gray } else { AntialiasMode::None } };
+        // context: none, an open layer, or a layer pushed under a clip rect that is popped while the layer is open
+        let context = rng.below(6);
+        let (cx0, cy0) = (rng.int(0, w as i64 / 2) as i32, rng.int(0, h as i64 / 2) as i32);
+        let layer_mode = random_mode(&mut rng);
+        let enter = |dt: &mut DrawTarget| match context {
+            0 => dt.push_layer_with_blend(0.8, layer_mode),
+            1 => {
+                dt.push_clip_rect(IntRect::new(IntPoint::new(cx0, cy0), IntPoint::new(w - rng_free_pad(w), h)));
+                dt.push_layer_with_blend(1.0, layer_mode);
+                dt.pop_clip();
+            }
+            _ => {}
+        };
+        let leave = |dt: &mut DrawTarget| {
+            if context <= 1 {
+                dt.pop_layer();
+            }
+        };
         let mut a = DrawTarget::from_vec(w, h, init.clone());
+        enter(&mut a);
         src.with(|s| a.fill_rect(x, y, rw, rh, s, &o));
+        leave(&mut a);
         let mut b = DrawTarget::from_vec(w, h, init.clone());
+        enter(&mut b);
         src.with(|s| b.fill(&rect_path(x, y, rw, rh), s, &o));
+        leave(&mut b);
         let mut c = DrawTarget::from_vec(w, h, init.clone());
+        enter(&mut c);
         let big = rng.chance(0.5);
         if big {
             c.push_clip_rect(IntRect::new(IntPoint::new(-5, -5), IntPoint::new(w + 5, h + 5)));
@@ -53,6 +81,7 @@ pub fn run(ctx: &Ctx) -> Outcome {
         }
         src.with(|s| c.fill_rect(x, y, rw, rh, s, &o));
         c.pop_clip();
+        leave(&mut c);
         let mut co = CaseOut::default();
         co.hash = crate::prng::hash_str(&format!("{:?}{:?}{:?}{:?}", (w, h, x, y, rw, rh), src, o, init));
         let changed = a.get_data().iter().zip(init.iter()).filter(|(p, q)| p != q).count();
@@ -74,6 +103,7 @@ pub fn run(ctx: &Ctx) -> Outcome {
             d.set("initial_pixels", pixels_json(&init));
             d.set("call", Op::FillRect(x, y, rw, rh, src.clone(), o).desc());
             d.set("covering_clip_larger_than_surface", J::Bool(big));
+            d.set("context", J::s(match context { 0 => "inside a layer", 1 => "inside a layer whose clip rect was popped while it is open", _ => "none" }));
             co.desc = Some(d);
         }
         co
